@@ -1,6 +1,7 @@
 package c05
 
 import (
+	"fmt"
 	"strings"
 
 	"verifharness/hk"
@@ -92,9 +93,30 @@ func EqualDateWitness() Witness {
 	}}
 }
 
+// OversizedWitness: an attribute claim whose claim| row value (70 kB) no sorted.KeyValue stores (F-C06-5:
+// before a5ef107 the live corpus knew the claim, a reloaded one did not).
+func OversizedWitness() Witness {
+	b := &setBuilder{}
+	k := b.key(0)
+	p := b.pn(k, 1)
+	b.claimAt(k, p, "set", "o5", fmt.Sprintf("s%d", LongBase+70000), 5000*sec)
+	set, err := b.finish("oversized-witness", seq(1, 3))
+	if err != nil {
+		panic(err)
+	}
+	var ops []string
+	for _, sp := range set.Specs {
+		ops = append(ops, sp.DefLine())
+	}
+	ops = append(ops, "open mem 1", "src 1", "recv 1", "src 2", "recv 2", "src 3", "recv 3", "obs", "obsr")
+	return Witness{"F-C06-5", ops, func(o []string) (bool, string) {
+		return o[len(o)-2] != last(o), "claim with a 70000-byte value: live " + o[len(o)-2] + " reload " + last(o)
+	}}
+}
+
 // Probes re-executes the witnesses of the findings of property prefix (F-C05 / F-C06).
 func ProbesFor(r *hk.Run, prefix string) {
-	for _, w := range append(Witnesses(), EqualDateWitness()) {
+	for _, w := range append(Witnesses(), EqualDateWitness(), OversizedWitness()) {
 		if !strings.HasPrefix(w.ID, prefix) {
 			continue
 		}
